@@ -236,6 +236,38 @@ def compare(got, want, B):
     return got == want
 
 
+def rearmed_inputs(r):
+    """WSGI: the same wsgi.input object serves several requests one after another (a server that re-arms one input per keep-alive
+    connection), or is rewound by a middleware that read the body through a request object of its own: every request object
+    reads the body that is there for it."""
+    import json as _json
+    from baize.wsgi import Request
+    for kind, (B, ct) in KINDS.items():
+        if not B:
+            continue
+        for op in ("body", "stream_full", "json", "form"):
+            areq = make_req(kind, [B[:2], B[2:]])
+            env = SV.to_environ(areq)
+            inp = env["wsgi.input"]
+            outs = []
+            for n in range(3):
+                if n:
+                    inp.rearm([B[:1], B[1:]])
+                    env = dict(SV.to_environ(areq), **{"wsgi.input": inp})
+                got, _ = wsgi_access(Request(env), op, [])
+                outs.append(got)
+            # a middleware reads the body, rewinds, passes the same environ on
+            got_mw, _ = wsgi_access(Request(env), "body", [])
+            inp.seek(0)
+            got_ep, _ = wsgi_access(Request(env), op, [])
+            outs.append(got_ep)
+            r.count("evaluations")
+            r.count("distinct_nontrivial")
+            if any(o != outs[0] for o in outs) or outs[0][0] in ("exc", "RuntimeError") and kind in ("raw", "json", "urlencoded", "multipart") and (op in ("body", "stream_full")):
+                r.violation(f"rearmed:{op}", {"mode": "rearmed", "kind": kind, "op": op}, f"wsgi {kind} body, access {op}: three requests on one re-armed wsgi.input object and one behind a rewinding middleware gave {outs!r:.300} (the first request's answer is the answer for each)")
+    r.sample({"mode": "rearmed", "requests_per_input": 3})
+
+
 def read_faults(r, tier):
     """WSGI: one read() of wsgi.input fails with a connection error (the one departure from the default environment answer), at
     every position, the reads after it succeed again; every sequence of <= 2 (thorough: 3) accesses. Whatever an access returns
@@ -411,6 +443,9 @@ def run_sequence_asgi(kind, chunks, seq, disc_at):
     from baize.asgi import Request
 
     areq = make_req(kind, chunks)
+    late = disc_at == "late"  # the body has not begun to arrive when the application first looks: the first message comes a moment later
+    if late:
+        disc_at = None
     if isinstance(disc_at, str):
         # "k+cl": the client announced no more than what it had sent when it went away; the final message still never came,
         # and the length a client announces is not what ends a body
@@ -423,6 +458,10 @@ def run_sequence_asgi(kind, chunks, seq, disc_at):
     ref = Ref(kind, disconnect=disc_at is not None, cache_errors=True)
     with Session() as s:
         async def receive():
+            if late and not state.get("arrived"):
+                import asyncio
+                await asyncio.sleep(0.001)  # (longer than the moment is_disconnected() is prepared to wait)
+                state["arrived"] = True
             if state["i"] < len(msgs):
                 m = msgs[state["i"]]
                 state["i"] += 1
@@ -445,6 +484,8 @@ def run_sequence_asgi(kind, chunks, seq, disc_at):
                     # "has the client left?" is asked once no request message is waiting (it reads one message): the next
                     # message is the disconnect, or none will ever come
                     nxt = msgs[state["i"]]["type"] if state["i"] < len(msgs) else None
+                    if late and not state.get("arrived"):
+                        nxt = None  # nothing has arrived yet: the answer is "still there", and nothing is consumed
                     if nxt == "http.request":
                         results.append(("skipped",))
                         continue
@@ -469,7 +510,7 @@ def run_sequence_asgi(kind, chunks, seq, disc_at):
                     cached[op] = obj
 
         task = s.loop.create_task(prog())
-        x = s.drive(task, [], max_timers=len(seq), env_filter=lambda n: False)
+        x = s.drive(task, [], max_timers=len(seq) if not late else 4 * len(seq) + 4, env_filter=lambda n: False)
         if not task.done():
             problems.append((len(results), "stuck", "access never completed although every message was available", None))
         elif task.exception():
@@ -774,7 +815,7 @@ def big_bodies(r):
 
 
 def shards(tier, seed):
-    out = [("big",), ("subrequests",), ("readfault",)] + [("two", k, 8) for k in range(8)]
+    out = [("big",), ("subrequests",), ("readfault",), ("rearmed",)] + [("two", k, 8) for k in range(8)]
     for iface in ("wsgi", "asgi"):
         for kind in KINDS:
             out.append(("seq", iface, kind))
@@ -799,6 +840,10 @@ def run_shard(desc, tier):
     if desc[0] == "two":
         two_requests(r, desc[1], desc[2])
         return r
+    if desc[0] == "rearmed":
+        rearmed_inputs(r)
+        r.count("states", 1)
+        return r
     if desc[0] == "readfault":
         read_faults(r, tier)
         r.count("states", 1)
@@ -819,6 +864,7 @@ def run_shard(desc, tier):
                 variants += [(base, "1+cl"), ([B[:1], B[1:2], B[2:]], "2+cl")]
             # the whole body in the first message, but the final (empty) message still to come - or never coming
             variants += [([B, b""], None), ([B, b""], 1)]
+            variants += [(base, "late")]
         for chunks, disc_at in variants:
             for n in range(1, DEPTH[tier] + 1):
                 for seq in itertools.product(ACCESSES + ["obtain", "drain"] + (["poll"] if iface == "asgi" else []), repeat=n):
@@ -892,6 +938,10 @@ def replay(w):
         x = run_two_requests(list(w["schedule"]), tuple(w["kinds"]), tuple(tuple(a) for a in w["accessors"]))
         solo = [run_sequence_asgi(k, [KINDS[k][0]], tuple(a), None)[2] for k, a in zip(w["kinds"], w["accessors"])]
         return x.obs["results"] != solo or bool(x.obs["stuck"]), {"results": x.obs["results"], "alone": solo}
+    if w["mode"] == "rearmed":
+        rr = R()
+        rearmed_inputs(rr)
+        return bool(rr.viol), {"violations": sorted(rr.viol), "texts": [v[2][:300] for v in rr.viol.values()]}
     if w["mode"] == "readfault":
         rr = R()
         read_faults(rr, "quick")
